@@ -110,18 +110,18 @@ Print Assumptions C07_children_match_source.
    exactly this: the variables of its enclosing {let}s and loops and the counters of its enclosing loops
    are bound; each of its declared params is either supplied or reads as undefined.
 
-   The full statement is therefore about [render_x] (Model/CheckerRun.v): [render] with the counter that
+   The full statement is therefore about [render_xc] (Model/CheckerRun.v): [render] with the counter that
    does not count the miss of a declared param of the template being executed (the params of the entry
    template at the start, those of the callee across every {call}).  For EVERY accepted registry whose
    trees have the parser's shape -- calls omitting optional params, data="all", data="$e", $ij,
    recursion; any data, any fuel, any writer fault; on every outcome -- that counter is 0, and
-   [render_x] is [render] in every other observable (so no lookup of [render] misses on anything but a
+   [render_xc] is [render] in every other observable (so no lookup of [render] misses on anything but a
    declared param of the template it is executing). *)
 Theorem C07_accepted_no_unbound_lookup :
   forall cf fuel name data_id data cl bl first_id,
   check_registry (c_reg cf) = Accept ->
   registry_shaped (c_reg cf) = true ->
-  let rx := render_x cf fuel name data_id data cl bl first_id in
+  let rx := render_xc cf fuel name data_id data cl bl first_id in
   let r := render cf fuel name data_id data cl bl first_id in
   rr_unbound rx = 0%nat
   /\ rr_outcome rx = rr_outcome r /\ rr_writes rx = rr_writes r /\ rr_file rx = rr_file r /\ rr_line rx = rr_line r
@@ -131,7 +131,7 @@ Print Assumptions C07_accepted_no_unbound_lookup.
 
 (* the refined counter is the counter minus the excused misses: for every registry (accepted or not) *)
 Theorem C07_render_x_is_render : forall cf fuel name data_id data cl bl first_id,
-  let rx := render_x cf fuel name data_id data cl bl first_id in
+  let rx := render_xc cf fuel name data_id data cl bl first_id in
   let r := render cf fuel name data_id data cl bl first_id in
   rr_outcome rx = rr_outcome r /\ rr_writes rx = rr_writes r /\ rr_file rx = rr_file r /\ rr_line rx = rr_line r
   /\ rr_shared_writes rx = rr_shared_writes r /\ (rr_unbound rx <= rr_unbound r)%nat.
@@ -144,7 +144,7 @@ Theorem C07_accepted_bundle_no_unbound_lookup :
   compile_check fs = Accept ->
   (forall ts, add_files [] fs = AddOk ts -> c_reg cf = registry_of ts fs) ->
   registry_shaped (c_reg cf) = true ->
-  rr_unbound (render_x cf fuel name data_id data cl bl first_id) = 0%nat.
+  rr_unbound (render_xc cf fuel name data_id data cl bl first_id) = 0%nat.
 Proof. exact accepted_bundle_no_unbound_name. Qed.
 Print Assumptions C07_accepted_bundle_no_unbound_lookup.
 
@@ -252,10 +252,10 @@ Proof. vm_compute. reflexivity. Qed.
 Example C07_refined_counter_counts :
   let cfx body := ex_cfg body in
   check_registry (c_reg (cfx [pr (ref "zz"); pr (ref "p")])) = Reject RUnbound
-  /\ rr_unbound (render_x (cfx [pr (ref "zz"); pr (ref "p")]) 100 (b "ns.t") 7 [(b "p", VInt 5)] None None 100) = 1%nat
+  /\ rr_unbound (render_xc (cfx [pr (ref "zz"); pr (ref "p")]) 100 (b "ns.t") 7 [(b "p", VInt 5)] None None 100) = 1%nat
   /\ check_registry (c_reg (cfx [pr (ref "q"); pr (ref "p")])) = Reject RUnbound
-  /\ rr_unbound (render_x (cfx [pr (ref "q"); pr (ref "p")]) 100 (b "ns.t") 7 [(b "p", VInt 5)] None None 100) = 1%nat
-  /\ rr_unbound (render_x (cfx [pr (ref "p")]) 100 (b "ns.t") 7 [] None None 100) = 0%nat
+  /\ rr_unbound (render_xc (cfx [pr (ref "q"); pr (ref "p")]) 100 (b "ns.t") 7 [(b "p", VInt 5)] None None 100) = 1%nat
+  /\ rr_unbound (render_xc (cfx [pr (ref "p")]) 100 (b "ns.t") 7 [] None None 100) = 0%nat
   /\ rr_unbound (render (cfx [pr (ref "p")]) 100 (b "ns.t") 7 [] None None 100) = 1%nat.
 Proof. vm_compute. repeat split; reflexivity. Qed.
 
@@ -273,7 +273,7 @@ Example C07_declared_param_may_be_absent :
   let cf := {| c_reg := reg; c_ij := None; c_oblig := []; c_msgs := None |} in
   compile_check [ex_opt_file] = Accept /\ registry_shaped reg = true /\ calls_total reg = false
   /\ rr_unbound (render cf 100 (b "ns.t") 7 [(b "p", VInt 5)] None None 100) = 1%nat
-  /\ rr_unbound (render_x cf 100 (b "ns.t") 7 [(b "p", VInt 5)] None None 100) = 0%nat.
+  /\ rr_unbound (render_xc cf 100 (b "ns.t") 7 [(b "p", VInt 5)] None None 100) = 0%nat.
 Proof. vm_compute. repeat split; reflexivity. Qed.
 
 (* the same through data="$m": the map behind $m lacks the callee's REQUIRED param q (the checker cannot know), the callee
@@ -295,5 +295,5 @@ Example C07_data_expr_and_recursion :
   compile_check [ex_dataexpr_file] = Accept /\ registry_shaped reg = true /\ calls_total reg = false
   /\ rr_outcome (render cf 100 (b "ns.t") 7 d None None 100) = Ok tt
   /\ rr_unbound (render cf 100 (b "ns.t") 7 d None None 100) = 2%nat
-  /\ rr_unbound (render_x cf 100 (b "ns.t") 7 d None None 100) = 0%nat.
+  /\ rr_unbound (render_xc cf 100 (b "ns.t") 7 d None None 100) = 0%nat.
 Proof. vm_compute. repeat split; reflexivity. Qed.
